@@ -65,7 +65,7 @@ func init() {
 
 func init() {
 	props["C28"] = &PropSpec{
-		Rules:      []string{"hdr/native", "hdr/includes", "hdr/native-exists", "native/argidx", "native/argrep", "native/retrep", "native/recvcast", "arith/result-follows-operand"},
+		Rules:      []string{"hdr/native", "hdr/includes", "hdr/native-exists", "native/argidx", "native/argrep", "native/retrep", "native/recvcast", "ast/class-unique", "arith/result-follows-operand"},
 		Decides:    "that a native method stored in the method table of a class converts its receiver to a Go type of that class (not of the class the file was copied from), and that the class of every evident return value of a native (a constructor whose class is fixed by its Go type, followed through single-class helpers) is one the header's return type names, where that type is built from classes, mixins, nilables and unions; that every class, mixin and module the headers define exists at run time under the same constant path, and that every `include` the headers declare for such a namespace is matched by the run-time hierarchy of package value (directly, through an included mixin or a superclass) - calls on built-in classes are bound against the run-time objects, so a method the checker finds through an include the run-time class lacks is bound to nothing; that the mixed-kind arithmetic methods behind Int, Float and BigFloat operators return every non-error result from inside the dispatch on the operand's representation (the headers declare a different result class per operand class, so a result returned for all operand kinds alike has the wrong class for all but one); for every native method whose header declares a parameter (or the receiver) as one of the simple built-in value classes (about 1100 argument positions): the accessors the native applies directly to that argument assume only representations that class can have, so a typed overload such as Float#+@1(other: Int) is not implemented by a body that reads a Float; for every method the std headers declare native and for which a native registration on the same class resolves (about 2400 pairs): the registration takes exactly the parameters the header declares (the VM sizes the argument slice from the registration, so fewer means an out-of-range read, more means shifted arguments); and every native method body indexes its argument slice only within the parameter count it is registered with.",
 		NotCovered: "44 declared natives have no registration anywhere in the run-time hierarchy (hdr/native-exists; open known findings, one mechanism F67); natives registered on containers the analysis does not resolve (counted in the evidence, not decided); parameter and return *types* (see C01/C02 rules); thrown-error classes; semantic correctness of results.",
 	}
